@@ -126,7 +126,37 @@ func add(a, b Term) Term {
 	if b == "0" {
 		return a
 	}
+	// fold literal offsets: (+ (+ x 3) 4) -> (+ x 7), 3 + 4 -> 7
+	if nb, ok := smallLit(b); ok {
+		if na, ok := smallLit(a); ok {
+			return itoa(na + nb)
+		}
+		if strings.HasPrefix(a, "(+ ") {
+			if i := strings.LastIndexByte(a, ' '); i > 0 {
+				if na, ok := smallLit(a[i+1 : len(a)-1]); ok {
+					if na+nb == 0 {
+						return a[3:i]
+					}
+					return a[:i+1] + itoa(na+nb) + ")"
+				}
+			}
+		}
+	}
 	return sx("+", a, b)
+}
+
+func smallLit(t Term) (int64, bool) {
+	if len(t) == 0 || len(t) > 15 {
+		return 0, false
+	}
+	var n int64
+	for _, c := range t {
+		if c < '0' || c > '9' {
+			return 0, false
+		}
+		n = n*10 + int64(c-'0')
+	}
+	return n, true
 }
 
 func sub(a, b Term) Term {
